@@ -266,7 +266,28 @@ func VerifH_C07_eval_error() {
 	verifrt.Assert(verifrt.LiveGoroutines() == 0, "no goroutine started for the run survives its return")
 }
 
-// C07: a step returning an undeclared output id ends the run with an error, not with a panic.
+// C07: a step that ends with an output id its lifecycle does not declare (a misbehaving step) ends the
+// run with a returned error: no panic on the step's goroutine, whichever of the two steps misbehaves.
+func VerifH_C07_undeclared_output() {
+	t := verifChain2()
+	who := verifrt.Choice("misbehaving", 2)
+	for i := range t.steps { // both steps come to their end by themselves; one of them misbehaves there
+		t.steps[i].outcome = map[string]int{"deploy": 0, "start": 0, "result": 0}
+	}
+	t.steps[who].outcome["undeclared"] = 1
+	ew, run := verifPrepare(t)
+	res := verifExecute(ew, run, t, verifrt.NondetVal("input"))
+	verifrt.Assert(!res.stuck, "the run returns")
+	verifrt.Assert((res.err == nil) != (res.id == ""), "Execute returns either an output or an error, never both or neither")
+	if run.produced(t.steps[who].id, "outputs", "surprise") {
+		verifrt.Reach("misbehaved")
+		verifrt.Assert(res.err != nil, "an undeclared step output ends the run with an error")
+	}
+	verifrt.Settle()
+	verifrt.Assert(verifrt.LiveGoroutines() == 0, "no goroutine started for the run survives its return")
+}
+
+// C07: a failing run-time evaluation of the workflow output ends the run with an error.
 func VerifH_C07_output_eval_error() {
 	t := verifChain2()
 	bad := vx("steps", "b", "outputs", "success", "v")
